@@ -535,6 +535,127 @@ Proof.
 Qed.
 
 (* ------------------------------------------------------------------ *)
+(* 7b. what an accepted buffer IS: a well-nested forest of TLVs within bounds, with the
+   length octets exactly where BER (and the library) has them *)
+
+Inductive wellnested : nat -> bytes -> Prop :=
+| WN_nil : forall d, wellnested (S d) []
+| WN_val : forall d b c i l,
+    b <> [] ->
+    tlv_hdr b = Some (c, i, l) ->
+    (c = true -> wellnested d (slice b i (i + l))) ->
+    wellnested (S d) (skipn (Z.to_nat (i + l)) b) ->
+    wellnested (S d) b.
+
+Lemma loop_wellnested d :
+  (forall c, tlv_fit d c = true -> wellnested d c) ->
+  forall f b, tlv_loop (tlv_fit d) f b = true -> wellnested (S d) b.
+Proof.
+  intros Hin. induction f as [|f IH]; intros b H.
+  - destruct b; [constructor | cbn in H; discriminate].
+  - destruct b as [|x r]; [constructor|]. cbn [tlv_loop] in H.
+    destruct (tlv_hdr (x :: r)) as [[[c i] l]|] eqn:Eh; [|discriminate].
+    apply andb_true_iff in H as [Hc Hr].
+    apply (WN_val d (x :: r) c i l); [discriminate | exact Eh | | apply IH; exact Hr].
+    intros ->. apply Hin. exact Hc.
+Qed.
+
+Lemma fit_wellnested : forall d b, tlv_fit d b = true -> wellnested d b.
+Proof.
+  induction d as [|d IH]; intros b H; [discriminate|].
+  cbn [tlv_fit] in H. exact (loop_wellnested d IH _ _ H).
+Qed.
+
+Lemma loop_fuel_mono inner : forall f b, tlv_loop inner f b = true ->
+  forall f', (f <= f')%nat -> tlv_loop inner f' b = true.
+Proof.
+  induction f as [|f IH]; intros b H f' Hf.
+  - destruct b; [destruct f'; reflexivity | cbn in H; discriminate].
+  - destruct b as [|x r]; [destruct f'; reflexivity|].
+    destruct f' as [|f']; [lia|]. cbn [tlv_loop] in H |- *.
+    destruct (tlv_hdr (x :: r)) as [[[c i] l]|]; [|discriminate].
+    apply andb_true_iff in H as [Hc Hr]. rewrite Hc. cbn [andb]. apply (IH _ Hr). lia.
+Qed.
+
+(* the converse: the fuel len(b) of the loop is never the reason for a refusal *)
+Lemma wellnested_fit : forall d b, wellnested d b -> tlv_fit d b = true.
+Proof.
+  intros d b H. induction H as [d|d b c i l Hne Hh Hc IHc Hr IHr].
+  - reflexivity.
+  - cbn [tlv_fit] in *. destruct b as [|x r]; [congruence|].
+    destruct (tlv_hdr_props _ _ _ _ Hh) as (_ & Hi & Hl & Hfit).
+    cbn [length tlv_loop]. rewrite Hh.
+    assert (Hin : (if c then tlv_fit d (slice (x :: r) i (i + l)) else true) = true).
+    { destruct c; [apply IHc; reflexivity | reflexivity]. }
+    rewrite Hin. cbn [andb].
+    apply (loop_fuel_mono _ _ _ IHr).
+    rewrite skipn_length. cbn [length]. lia.
+Qed.
+
+Lemma cont_run_spec : forall r,
+  0 <= cont_run r <= zlen r /\
+  (forall j : nat, Z.of_nat j < cont_run r -> (128 <= nth j r 0)%N) /\
+  (cont_run r < zlen r -> (nth (Z.to_nat (cont_run r)) r 0 < 128)%N).
+Proof.
+  induction r as [|b r (IH1 & IH2 & IH3)]; cbn [cont_run].
+  - change (zlen (@nil N)) with 0. split; [lia|]. split; [intros; lia | intros; lia].
+  - rewrite zlen_cons. destruct (128 <=? b)%N eqn:E.
+    + split; [lia|]. split.
+      * intros j Hj. destruct j as [|j]; cbn [nth]; [lia | apply IH2; lia].
+      * intros H. replace (Z.to_nat (1 + cont_run r)) with (S (Z.to_nat (cont_run r))) by lia.
+        cbn [nth]. apply IH3. lia.
+    + split; [lia|]. split; [intros; lia|]. intros _. cbn. lia.
+Qed.
+
+Definition ident_len (b : bytes) : Z :=
+  match b with
+  | [] => 0
+  | b0 :: r => if (N.land b0 31 =? 31)%N then 1 + cont_run r + 1 else 1
+  end.
+
+Definition high_form (b : bytes) : bool := (N.land (nth O b 0%N) 31 =? 31)%N.
+
+(* where everything sits in an accepted header *)
+Lemma tlv_hdr_shape b c i l :
+  tlv_hdr b = Some (c, i, l) ->
+  let k := ident_len b in
+  1 <= k < zlen b /\
+  (high_form b = true ->
+     2 <= k /\
+     (forall j : nat, (1 <= j)%nat -> Z.of_nat j < k - 1 -> (128 <= nth j b 0)%N) /\
+     (nth (Z.to_nat (k - 1)%Z) b 0 < 128)%N) /\
+  c = (N.land (nth O b 0%N) 32 =? 32)%N /\
+  (let lb := Z.of_N (nth (Z.to_nat k) b 0%N) in
+   (lb < 128 /\ i = k + 1 /\ l = lb) \/
+   (128 < lb <= 132 /\ i = k + 1 + (lb - 128) /\ l = be_val (slice b (k + 1) i))) /\
+  0 <= l /\ i + l <= zlen b.
+Proof.
+  intros H. cbv zeta. destruct (tlv_hdr_props _ _ _ _ H) as (_ & _ & Hl & Hfit).
+  unfold tlv_hdr in H. destruct (gen_hdr 4 b) as [[[c0 i0] l0]|] eqn:E; [|discriminate].
+  destruct (zlen b - i0 <? l0); [discriminate|]. inversion H; subst c0 i0 l0. clear H.
+  unfold gen_hdr in E. destruct b as [|b0 r]; [discriminate|].
+  cbn [ident_len].
+  set (k := if (N.land b0 31 =? 31)%N then 1 + cont_run r + 1 else 1) in *.
+  destruct (cont_run_spec r) as (Hr1 & Hr2 & Hr3).
+  assert (Hk1 : 1 <= k) by (unfold k; destruct (N.land b0 31 =? 31)%N; lia).
+  cbv zeta in E. destruct (zlen (b0 :: r) <=? k) eqn:E0; [discriminate|].
+  split; [lia|].
+  split.
+  { intros Hh. unfold high_form in Hh. cbn [nth] in Hh. unfold k in *.
+    destruct (N.land b0 31 =? 31)%N eqn:Eq; [|congruence]. split; [lia|]. split.
+    - intros j Hj1 Hj2. destruct j as [|j]; [lia|]. cbn [nth]. apply Hr2. lia.
+    - replace (Z.to_nat (1 + cont_run r + 1 - 1)) with (S (Z.to_nat (cont_run r))) by lia.
+      cbn [nth]. apply Hr3. rewrite zlen_cons in E0. lia. }
+  set (lb := Z.of_N (nth (Z.to_nat k) (b0 :: r) 0%N)) in *.
+  destruct (lb =? 128) eqn:E1; [discriminate|].
+  destruct (128 <? lb) eqn:E2.
+  - destruct ((4 <? lb - 128) || (zlen (b0 :: r) <? k + 1 + (lb - 128))) eqn:E3; [discriminate|].
+    apply orb_false_iff in E3 as [E3 E4]. injection E as Ec Ei El; subst c i l.
+    split; [reflexivity|]. split; [right; split; [lia|]; split; [lia | reflexivity] | split; assumption].
+  - injection E as Ec Ei El; subst c i l. split; [reflexivity|]. split; [left; split; [lia|]; split; [lia | reflexivity] | split; assumption].
+Qed.
+
+(* ------------------------------------------------------------------ *)
 (* 8. the full statement (spelled out; Properties.v names it C01_full) *)
 
 Lemma full_holds :
